@@ -378,7 +378,7 @@ def check_rules_c01(case, plan, out):
 
 def sx_truth(spec, unify):
     """z3 ground truth for the unplanted scheduling family.  unify=False: every atom is active (a model is certainly a solution);
-    unify=True: a goal may also be achieved by an active atom of the same predicate with equal arguments (an upper bound on what can be solved)"""
+    unify=True: a goal or a fact may also be unified with an active atom of the same predicate with equal arguments (an upper bound on what can be solved)"""
     import z3
     q = lambda f: z3.RealVal(str(f))
     s = z3.Solver()
@@ -399,7 +399,7 @@ def sx_truth(spec, unify):
             s.add(en[i] - st[i] == q(a["dur_eq"]))
         if a["lo"] is not None:
             s.add(st[i] >= q(a["lo"]), en[i] <= q(a["hi"]))
-        if a["kind"] == "fact" or not unify:
+        if not unify:       # (facts may be unified with an equal atom just like goals)
             s.add(act[i])
         else:
             alts = [act[i]]
